@@ -556,7 +556,7 @@ static void DecodeCobr(Word Index) {
                 WrError(ErrNum_NotAligned);
             } else if (
                     !mSymbolQuestionable(Flags)
-                    && ((AdrInt < -4096) || (AdrInt > 4090))) {
+                    && ((AdrInt < -4096) || (AdrInt > 4092))) {
                 WrError(ErrNum_JmpDistTooBig);
             } else {
                 DAsmCode[0] = (Op->Code << 24) + (S1Reg << 19) + (S2Reg << 14)
